@@ -29,8 +29,6 @@ UNIT1 = ["inv", "invin"]
 UNIT2 = ["div", "divin"]
 
 
-KNOWN_LOGUNIT_SITE = "Modular<Log16>::isUnit"
-KNOWN_LOGUNIT_KLASS = "unit other than 1 and -1"
 KNOWN_BALNEG_SITE = "ModularBalanced<T>::neg"
 KNOWN_BALNEG_KLASS = "even modulus, result -(p/2)"
 BAL_NEG_OPS = ("neg", "negin", "maxpy", "maxpyin")
@@ -443,10 +441,7 @@ def main(tier, replay=None):
             e = oracle(ring, p, op, a)
             exp = None if e is None else str(e)
             if exp is not None and got != exp:
-                if ring in LOG_RINGS and op == "isUnit" and got == "0" and a[0] % p not in (0, 1, p - 1):
-                    chk.fail_input(KNOWN_LOGUNIT_SITE, KNOWN_LOGUNIT_KLASS, case, exp, got,
-                                   "Modular<Log16>::isUnit is false for a unit other than 1 and -1")
-                elif ring in BAL_RINGS and p % 2 == 0 and op in BAL_NEG_OPS and e == p // 2 and got == str(-(p // 2)):
+                if ring in BAL_RINGS and p % 2 == 0 and op in BAL_NEG_OPS and e == p // 2 and got == str(-(p // 2)):
                     chk.fail_input(KNOWN_BALNEG_SITE, KNOWN_BALNEG_KLASS, case, exp, got,
                                    "ModularBalanced negation of p/2 for even p leaves the canonical range [-(p/2)+1, p/2]")
                 else:
